@@ -270,6 +270,45 @@ def closed_loop(seed=0, trials=3, elongated=None):
         shutil.rmtree(d, ignore_errors=True)
 
 
+def forced_rms_oracle():
+    """option set 'noise forced, background estimated internally': a source on a constant pedestal; the pedestal must be found
+    and removed (reported background ~ pedestal, peak ~ injected)"""
+    import logging
+    from astropy.io import fits
+    sfm = loader.real('source_finder')
+    d = tempfile.mkdtemp(prefix='c01f_', dir='/var/tmp')
+    try:
+        N = 56
+        rng = real_np.random.default_rng(8)
+        y, x = real_np.mgrid[0:N, 0:N].astype(float)
+        ped, peak = 0.03, 1.0
+        img = peak * real_np.exp(-((y - 28.3) ** 2 / (2 * 3.4 ** 2) + (x - 27.6) ** 2 / (2 * 2.6 ** 2))) + ped + rng.normal(0, 1e-4, (N, N))
+        hdr = fits.Header()
+        hdr['CTYPE1'], hdr['CTYPE2'] = 'RA---SIN', 'DEC--SIN'
+        hdr['CRVAL1'], hdr['CRVAL2'] = 30., -40.
+        hdr['CRPIX1'] = hdr['CRPIX2'] = N / 2
+        hdr['CDELT1'], hdr['CDELT2'] = -1 / 360, 1 / 360
+        hdr['BMAJ'] = hdr['BMIN'] = 5.0 / 360
+        hdr['BPA'] = 0.0
+        fn = os.path.join(d, 'p.fits')
+        fits.PrimaryHDU(img.astype(real_np.float64), header=hdr).writeto(fn)
+        out = {}
+        for label, kw in (('both forced', dict(rms=2e-3, bkg=ped)), ('noise forced, background internal', dict(rms=2e-3))):
+            f = sfm.SourceFinder(log=logging.getLogger('c01'))
+            srcs = f.find_sources_in_image(fn, cores=1, innerclip=10, outerclip=8, docov=False, max_summits=3, **kw)
+            if len(srcs) != 1:
+                return True, 'forced-rms-count', '%s: %d components for one source on a pedestal' % (label, len(srcs))
+            out[label] = srcs[0]
+        a, b = out['both forced'], out['noise forced, background internal']
+        if abs(b.background - ped) > 0.3 * ped or abs(b.peak_flux / a.peak_flux - 1) > 0.02 or abs(b.a / a.a - 1) > 0.03:
+            return True, 'forced-rms-background', 'source on a pedestal of %.3f: with the noise forced and the background left to Aegean the reported background is %.4f, peak %.4f (both forced: %.4f), a %.2f (both forced: %.2f)' % (ped, b.background, b.peak_flux, a.peak_flux, b.a, a.a)
+        return False, None, None
+    except Exception as e:
+        return True, 'raises-%s' % type(e).__name__, repr(e)[:300]
+    finally:
+        shutil.rmtree(d, ignore_errors=True)
+
+
 def run(rep):
     mods = r2c.sym_sf()
     thorough = rep.tier == 'thorough'
@@ -356,6 +395,10 @@ def run(rep):
         rep.validated_runs(1)
         if bad:
             rep.finding('C01/K-closed-loop/%s' % cls, dict(seed=5, elongated=list(el)), detail)
+    bad, cls, detail = forced_rms_oracle()
+    rep.validated_runs(2)
+    if bad:
+        rep.finding('C01/K-closed-loop/%s' % cls, dict(forced_rms=True), detail)
     # corners of the quantifier: elongated sources off the pixel axes; resolved sources just above the seed clip
     for name, sp, sd in (('diagonal', dict(pa=45.0, ratio=3.0), 5), ('diagonal', dict(pa=-40.0, ratio=3.5), 6), ('faint-resolved-5.8-sigma', dict(pa=0.0, ratio=3.0, snr=5.8), 5),
                          ('faint-resolved-5.6-sigma', dict(pa=0.0, ratio=3.0, snr=5.6), 5)):
@@ -385,6 +428,9 @@ def replay(w):
         from checks import C04
         import random
         bad, cls, detail = C04.num_jac_check(C04.default_vals(1, random.Random(1)), 1, [{p: True for p in C04.NAMES}])
+        return bad, '%s: %s' % (cls, detail)
+    if w['witness'].get('forced_rms'):
+        bad, cls, detail = forced_rms_oracle()
         return bad, '%s: %s' % (cls, detail)
     if w['witness'].get('special'):
         bad, cls, detail = closed_loop(int(w['witness'].get('seed', 5)), 1, elongated=dict(w['witness']['special']))
